@@ -1,6 +1,8 @@
 /-
 C13 — Re-encoding a decoded PDU is stable and deterministic.
 -/
+import Smpp.Properties.SrcPduCodec
+import Smpp.Properties.SrcPduFrame
 import Smpp.Proofs.Roundtrip
 import Smpp.Generated.Layouts
 
